@@ -18,6 +18,15 @@ def load_concrete():
     spec = importlib.util.spec_from_file_location("pyvc_concrete", os.path.join(HERE, "concrete.py"))
     m = importlib.util.module_from_spec(spec)
     spec.loader.exec_module(m)
+    sys.modules["pyvc_concrete"] = m
+    return m
+
+
+def load_leafharness():
+    import importlib.util
+    spec = importlib.util.spec_from_file_location("pyvc_leafharness", os.path.join(HERE, "leafharness.py"))
+    m = importlib.util.module_from_spec(spec)
+    spec.loader.exec_module(m)
     return m
 
 
@@ -134,15 +143,29 @@ def main():
     repo = os.environ.get("UTYPE_REPO", rp.get("repo", "/repo"))
     conc = load_concrete()
     verdict = {"status": "no-failing-input-found", "runs": []}
+    mod = fn = None
     try:
         mod, fn = resolve(repo, rp["function"]["file"], rp["function"]["qualname"])
     except Exception as e:  # noqa
-        verdict["error"] = "cannot resolve function: %s" % e
-        print(json.dumps(verdict))
-        return
-    for cand in rp.get("candidates", []):
+        if not rp.get("leafworld"):
+            verdict["error"] = "cannot resolve function: %s" % e
+            print(json.dumps(verdict))
+            return
+    cands = list(rp.get("candidates", []))
+    if rp.get("leafworld"):
+        cands = [{"leafworld": True, "reject": r} for r in ("TypeError", "StubRejection", "ValueError")]
+    for cand in cands:
         try:
-            out, violated = run_candidate(conc, rp, fn, mod, cand)
+            if cand.get("leafworld"):
+                sys.path.insert(0, repo)
+                signal.signal(signal.SIGALRM, _alarm)
+                signal.alarm(int(rp.get("watchdog_s", 10)) + 20)
+                try:
+                    out, violated = load_leafharness().replay(rp, _exc_class, cand["reject"])
+                finally:
+                    signal.alarm(0)
+            else:
+                out, violated = run_candidate(conc, rp, fn, mod, cand)
         except Exception as e:  # noqa
             verdict["runs"].append({"error": "%s: %s" % (type(e).__name__, e), "trace": traceback.format_exc()[-600:]})
             continue
@@ -151,6 +174,11 @@ def main():
         # confirmed only if the clause the solver refuted is the one that fails on the real code
         want = {"post": "post:%s", "exc-post": "exc-post:%s", "raises-only": "raises-only:%s"}.get(rp.get("kind"))
         hit = [v for v in violated if want is None or v == want % rp.get("label") or v.startswith("does-not-terminate")]
+        if want is None and rp.get("relevant_clauses") is not None:
+            # an invariant / frame / call-site obligation: any clause of this contract that serves the property
+            hit = [v for v in violated if v in rp["relevant_clauses"] or v.startswith("does-not-terminate")]
+        if rp.get("kind") == "frame":
+            hit = [v for v in violated if v.startswith("frame:")]
         if rp.get("kind") == "variant":
             hit = [v for v in violated if v.startswith("does-not-terminate")]
         if hit:
